@@ -243,40 +243,6 @@ def rule_det3(ctx: Ctx) -> RuleResult:
     rr.ob(g.relpath, g.qualname, "remove_by_name", "a type is removed when either its class name or the name of its "
           "actual type equals the given name", DISCHARGED if ok else VIOLATED,
           "both names compared, snapshot iteration, remove(cls) called" if ok else why, g.node.lineno)
-    # (4) resolve returns only members of its argument or right-hand sides present in the relation
-    rs = prog.lookup_method(c, "resolve")
-    if rs:
-        h = rs[0]
-        rr.instances += 1
-        rets = [n for n in walk_no_nested(h.node) if isinstance(n, ast.Return) and n.value is not None]
-        ok = False
-        why = "unexpected shape"
-        if len(rets) == 1 and isinstance(rets[0].value, ast.Name):
-            R = rets[0].value.id
-            sources = set()
-            for d in all_defs(h, R):
-                if isinstance(d, (ast.Assign, ast.AnnAssign)):
-                    sources.add(norm(d.value))
-            vararg = h.node.args.vararg.arg if h.node.args.vararg else None
-            good = True
-            for s in sources:
-                if s in (f"set({vararg})", f"set({R})", f"frozenset({vararg})"):
-                    continue
-                # another local set: all its adds must be loop variables drawn from R
-                adds = [x for x in walk_no_nested(h.node) if isinstance(x, ast.Call) and isinstance(x.func, ast.Attribute)
-                        and x.func.attr == "add" and norm(x.func.value) == s]
-                if not adds:
-                    good = False
-                for a in adds:
-                    lp = enclosing_loop(h.module, a)
-                    if not (isinstance(lp, ast.For) and a.args and norm(a.args[0]) in names_in(lp.target)
-                            and R in names_in(lp.iter)):
-                        good = False
-            ok = good and bool(sources)
-            why = "result is built from something other than members of the argument set" if not ok else ""
-        rr.ob(h.relpath, h.qualname, "return of resolve", "resolve() returns only members of the set it was given",
-              DISCHARGED if ok else VIOLATED, "result ⊆ arguments (every add is a loop variable over the current set)"
-              if ok else why, h.node.lineno)
     # (5) the CLI passes every disabled name to the registry before samples are loaded
     pa = prog.func("json_to_models/cli.py", "Cli.parse_args")
     rr.instances += 1
@@ -409,4 +375,62 @@ def rule_det5(ctx: Ctx) -> RuleResult:
                   f"effects on the string-type registry: {sorted(ks)}", n.lineno, trivial=True)
     if n_add < 1 or n_rem < 1:
         raise AnalysisError(f"DET-5: expected add and remove events on CLI paths, found add={n_add} remove={n_rem}")
+    return rr
+
+
+def rule_res1(ctx: Ctx) -> RuleResult:
+    rr = RuleResult("RES-1", "resolving string pseudo-types never loses a type that nothing else covers", floor=1)
+    prog = ctx.prog
+    c = prog.cls(*SSR)
+    # (4) RES-1: resolve() returns the given types minus those that are a particular case of another given type
+    rs = prog.lookup_method(c, "resolve")
+    if rs:
+        h = rs[0]
+        rr.instances += 1
+        rets = [n for n in walk_no_nested(h.node) if isinstance(n, ast.Return) and n.value is not None]
+        vararg = h.node.args.vararg.arg if h.node.args.vararg else None
+        ok = False
+        why = "unexpected shape"
+        if len(rets) == 1 and isinstance(rets[0].value, ast.Name):
+            R = rets[0].value.id
+            defs = [d for d in all_defs(h, R) if isinstance(d, (ast.Assign, ast.AnnAssign))]
+            src_ok = bool(defs) and all(norm(d.value) in (f"set({vararg})", f"set({R})", "set(types)", f"frozenset({vararg})") or
+                                        (isinstance(d.value, ast.Call) and norm(d.value.func) == "set" and d.value.args
+                                         and isinstance(d.value.args[0], ast.Name)) for d in defs)
+            muts = [x for x in walk_no_nested(h.node) if isinstance(x, ast.Call) and isinstance(x.func, ast.Attribute)
+                    and norm(x.func.value) == R and x.func.attr in ("add", "update", "discard", "remove", "pop", "clear",
+                                                                    "difference_update", "intersection_update")]
+            mut_ok = True
+            for m in muts:
+                lp = enclosing_loop(h.module, m)
+                iff = h.module.parents.get(h.module.parents.get(m))
+                pair_guard = isinstance(iff, ast.If) and isinstance(iff.test, ast.Compare) and isinstance(iff.test.ops[0], ast.In) \
+                    and "replaces" in norm(iff.test.comparators[0]) and isinstance(iff.test.left, ast.Tuple) and len(iff.test.left.elts) == 2
+                if not (m.func.attr in ("discard", "remove") and pair_guard and m.args
+                        and norm(m.args[0]) == norm(iff.test.left.elts[0])):
+                    mut_ok = False
+                    why = (f"`{norm(m)}` changes the result otherwise than by dropping the special-case side of a matching pair: "
+                           f"types unrelated to the others can be lost (IntString, FloatString, BooleanString -> {{FloatString}})")
+            rebuilt = [d for d in defs if isinstance(d.value, ast.Name) and d.value.id != vararg]
+            if rebuilt:
+                mut_ok = False
+                why = (f"the result is replaced by `{norm(rebuilt[0].value)}`, a set collected from the right-hand sides of the "
+                       f"matching pairs: a type related to none of the others is dropped as soon as any pair matches")
+            ok = src_ok and mut_ok and not rebuilt
+            if ok:
+                why = ""
+            elif not src_ok and mut_ok:
+                why = "the result does not start as a copy of the given types"
+        rr.ob(h.relpath, h.qualname, "return of resolve", "resolve() keeps every given type except those that another given "
+              "type replaces (so a set with an unrelated member never resolves to a single type)", DISCHARGED if ok else VIOLATED,
+              "copy of the arguments, only special cases discarded" if ok else why, h.node.lineno)
+    if rr.instances == 0:
+        raise AnalysisError("RES-1: StringSerializableRegistry.resolve vanished")
+    # the caller turns an unresolved set (more than one type left) into plain str
+    ou = prog.func("json_to_models/generator.py", "MetadataGenerator._optimize_union")
+    rr.instances += 1
+    ok = any(isinstance(n, ast.IfExp) and norm(n.body) == "str" and "len(" in norm(n.test) and "> 1" in norm(n.test)
+             for n in walk_no_nested(ou.node))
+    rr.ob(ou.relpath, ou.qualname, "str if len(str_types) > 1 else next(iter(str_types))", "more than one pseudo-type left "
+          "after resolving means plain str", DISCHARGED if ok else VIOLATED, "found" if ok else "missing", ou.node.lineno)
     return rr
